@@ -1,6 +1,6 @@
 (* C12 — SQL integrity constraints hold in every reachable state.
    Model: coq/SQLCons/Model.v (one table t(id PK [AUTO_INCREMENT], v INTEGER [NOT NULL], s VARCHAR[n])
-   [CHECK (v >= 0)], optional UNIQUE index on v, optional index on s).  [run g fx evs] is the state after
+   [CHECK (v >= 0)], optional UNIQUE index on (v) or composite on (v, s), optional index on s).  [run g fx evs] is the state after
    the history evs: ANY list of events (BEGIN / statement / COMMIT / ROLLBACK / autocommit batch /
    CREATE [UNIQUE] INDEX) issued by ANY number of sessions in ANY interleaving, with MVCC validation at
    commit.  [fixed_code] is the code as it is (with the repairs c876bb2, 12bf3b7, a77403f that this
@@ -18,10 +18,10 @@ Theorem pk_unique :
 Proof. exact pk_unique_code. Qed.
 Print Assumptions pk_unique.
 
-(* UNIQUE index: after every history and interleaving, no two live rows hold the same value in v
-   (NULL included, as the index treats it). *)
+(* UNIQUE index — on (v), or the composite one on (v, s) when k_ucomp g —: after every history and
+   interleaving, no two live rows hold the same value under it (NULL included, as the index treats it). *)
 Theorem unique_index_no_duplicates :
-  forall (g : cfg) (evs : list event), unique_ok (s_c (run g fixed_code evs)).
+  forall (g : cfg) (evs : list event), unique_ok g (s_c (run g fixed_code evs)).
 Proof. exact unique_fixed_code. Qed.
 Print Assumptions unique_index_no_duplicates.
 
